@@ -16,11 +16,12 @@ structure Sim where
   cutAck : Option Nat := none
   cutOpen : Bool := false
   cutHello : Bool := false
+  cutReq : Bool := false
   retainedKeys : List (String × Nat) := []
 
 def sortS (l : List String) : List String := l.mergeSort (fun a b => !(b < a))
 
-def stepD (st : S) (l : Label String Nat) : S := (step 100 st l).getD st
+def stepD (st : S) (l : Label String Nat) : S := (Proto.step true 100 st l).getD st
 
 def dec : Option Nat → Option Nat
   | some (n + 1) => some n
@@ -32,7 +33,8 @@ def settle : Nat → Sim → Sim
   | fuel + 1, m =>
     let st := m.st
     if !st.c.isOpen then
-      if m.cutHello then settle fuel { m with st := stepD st .helloLost, cutHello := false }
+      if m.cutReq then settle fuel { m with st := stepD st .helloFail, cutReq := false }
+      else if m.cutHello then settle fuel { m with st := stepD st .helloLost, cutHello := false }
       else if m.cutOpen then settle fuel { m with st := stepD st (.reconnect false), cutOpen := false }
       else settle fuel { m with st := stepD st (.reconnect true) }
     else match st.c.up with
@@ -56,7 +58,7 @@ def fin (m : Sim) : Sim × String :=
   if m.connected then
     let m' := settle 100000 m
     -- the real driver waits until S's queue is fully acknowledged; events that are neither acknowledged nor going to be
-    -- re-sent (possible only after a lost handshake response) show up as `hang`
+    -- re-sent (possible only in the code before 086aedd, after a lost handshake response) show up as `hang`
     (m', (if m'.st.s.q.items.isEmpty then "" else "hang ") ++ report m')
   else (m, report m)
 
@@ -83,6 +85,7 @@ def step (m : Sim) (line : String) : Sim × String :=
   | ["cut-before-ack", n] => ({ m with cutAck := some (natOf n) }, "armed")
   | ["cut-open"] => ({ m with cutOpen := true }, "armed")
   | ["cut-hello-resp"] => ({ m with cutHello := true }, "armed")
+  | ["cut-hello-req"] => ({ m with cutReq := true }, "armed")
   | ["break"] => fin { m with st := stepD m.st .brk }
   | ["peer-restart"] => fin { m with st := stepD m.st .peerRestart }
   | ["sender-restart"] => fin { m with st := stepD m.st (.senderRestart m.st.s.topics m.st.s.retained) }
